@@ -48,6 +48,24 @@ theorem SubOf.mapStrip (pid : String) (c : Rm) {n0 n : Net} (h : SubOf n0 n) :
     · exact hPQ.strip c
     · exact hPQ
 
+theorem SubPt.trans {P Q S : Point} (h1 : SubPt P Q) (h2 : SubPt Q S) : SubPt P S := by
+  obtain ⟨a1, a2, a3⟩ := h1
+  obtain ⟨b1, b2, b3⟩ := h2
+  refine ⟨b1.trans a1, ?_, ?_⟩
+  · rcases b2 with b | b
+    · rw [b]; exact a2
+    · exact Or.inr b
+  · rcases b3 with b | b
+    · rw [b]; exact a3
+    · exact Or.inr b
+
+theorem SubOf.trans {n0 n1 n2 : Net} (h1 : SubOf n0 n1) (h2 : SubOf n1 n2) : SubOf n0 n2 := by
+  induction h1 generalizing n2 with
+  | nil => cases h2; exact .nil
+  | @cons P Q r0 r hPQ hr ih =>
+    cases h2 with
+    | cons hQS hr' => exact .cons (hPQ.trans hQS) (ih hr')
+
 /-- closure of a set of configurations under what the decision layer does to the network -/
 structure Closed (R : Net → Prop) (W : WorldA) : Prop where
   world : ∀ n, R n → R (W n).net
